@@ -1,6 +1,7 @@
 package sims
 
 import (
+	"context"
 	"crypto"
 	"crypto/sha256"
 	"crypto/sha512"
@@ -87,6 +88,8 @@ type signingCertV2 struct {
 var TSABehaviours = []string{
 	"granted", "granted-with-mods", "granted-by-the-other-authority",
 	"status-rejection", "status-waiting", "status-revocation-warning",
+	// a status that is not a grant, with an otherwise impeccable token attached
+	"status-rejection-with-token", "status-waiting-with-token", "status-revocation-warning-with-token", "status-revocation-notification-with-token",
 	"imprint-of-other-bytes", "imprint-other-hash", "wrong-nonce", "no-nonce",
 	"untrusted-root", "certificates-omitted", "only-leaf-included",
 	"leaf-eku-not-critical", "leaf-eku-extra", "leaf-ku-keyencipherment", "leaf-ca-true", "leaf-ku-absent",
@@ -146,6 +149,8 @@ func tsaChain(n int, defect string) *pki.Chain {
 	}
 	leaf, ca := specs[0], specs[1]
 	switch defect {
+	case "ocsp-pointer":
+		leaf.OCSP = []string{"http://" + TSAOCSPHost}
 	case "untrusted-root":
 		specs[n-1].CN = "tsa-other-root"
 		specs[n-1].Key = pki.K("p256", 9)
@@ -193,6 +198,10 @@ func tsaChain(n int, defect string) *pki.Chain {
 func NewTSA(behaviour string, n int) *TSA {
 	t := &TSA{Behaviour: behaviour, Len: n}
 	switch behaviour {
+	case "ocsp-good", "ocsp-revoked", "ocsp-revoked-inv-far-future", "ocsp-unknown":
+		// grants like "granted"; the TSA leaf names a responder, whose answer about
+		// the leaf is the behaviour (for a REAL revocation validator to find)
+		t.chain = tsaChain(n, "ocsp-pointer")
 	case "granted-by-the-other-authority":
 		// the authority the "untrusted-root" cases meet, asked by a caller who
 		// does trust its root
@@ -376,8 +385,8 @@ func (t *TSA) token(req *tspclient.Request, serial *big.Int) ([]byte, []byte, as
 // goodBehaviour says whether the behaviour is one the caller must accept.
 func (t *TSA) goodBehaviour() bool {
 	switch t.Behaviour {
-	case "granted", "granted-with-mods", "granted-by-the-other-authority":
-		return true
+	case "granted", "granted-with-mods", "granted-by-the-other-authority", "ocsp-good", "ocsp-revoked", "ocsp-revoked-inv-far-future", "ocsp-unknown":
+		return true // as far as the token goes
 	case "only-leaf-included":
 		return t.Len == 2 // with intermediates missing the chain cannot be built
 	}
@@ -434,8 +443,17 @@ func (t *TSA) Handler() netsim.Handler {
 		case "granted-without-token":
 			resp.Status.Status = tsppki.StatusGranted
 		default:
-			if t.Behaviour == "granted-with-mods" {
+			switch t.Behaviour {
+			case "granted-with-mods":
 				resp.Status.Status = tsppki.StatusGrantedWithMods
+			case "status-rejection-with-token":
+				resp.Status.Status = tsppki.StatusRejection
+			case "status-waiting-with-token":
+				resp.Status.Status = tsppki.StatusWaiting
+			case "status-revocation-warning-with-token":
+				resp.Status.Status = tsppki.StatusRevocationWarning
+			case "status-revocation-notification-with-token":
+				resp.Status.Status = tsppki.StatusRevocationNotification
 			}
 			tok, imprint, hoid := t.token(&req, serial)
 			served.Token, served.Imprint, served.HashOID = tok, imprint, hoid
@@ -465,4 +483,50 @@ func (t *TSA) Log() (requests int, served []TSAServed) {
 	t.mu.Lock()
 	defer t.mu.Unlock()
 	return t.Requests, append([]TSAServed(nil), t.Served...)
+}
+
+// DirectTimestamper hands requests to the authority without tspclient's HTTP
+// client in between - and without that client's own validation of the reply:
+// what the authority answers is what the caller of Timestamp gets.
+type DirectTimestamper struct{ T *TSA }
+
+// Timestamp implements tspclient.Timestamper.
+func (d DirectTimestamper) Timestamp(ctx context.Context, req *tspclient.Request) (*tspclient.Response, error) {
+	body, err := req.MarshalBinary()
+	if err != nil {
+		return nil, err
+	}
+	rep := d.T.Handler()(&netsim.Request{Body: body, Method: "POST"})
+	if rep.Err != nil {
+		return nil, rep.Err
+	}
+	if rep.Status != 0 && rep.Status != 200 {
+		return nil, fmt.Errorf("authority answered %d", rep.Status)
+	}
+	var resp tspclient.Response
+	if err := resp.UnmarshalBinary(rep.Body); err != nil {
+		return nil, err
+	}
+	return &resp, nil
+}
+
+// TSAOCSPHost is the responder the "ocsp-*" authorities' leaf names.
+const TSAOCSPHost = "ocsp.tsa.c15.test"
+
+// OCSPReply is the responder's answer about the authority's leaf for the
+// "ocsp-*" behaviours (authentic, current).
+func (t *TSA) OCSPReply() netsim.Reply {
+	s := pki.OCSPSingle{Serial: t.chain.Certs[0].SerialNumber, Status: pki.OCSPGood, Reason: -1, ThisUpdate: pki.Past, NextUpdate: pki.Future}
+	switch t.Behaviour {
+	case "ocsp-revoked":
+		s.Status, s.Reason = pki.OCSPRevoked, 1
+	case "ocsp-revoked-inv-far-future":
+		// revoked, with an invalidity date later than any time the authority
+		// could put into a token
+		far := time.Date(2095, 1, 1, 0, 0, 0, 0, time.UTC)
+		s.Status, s.Reason, s.Invalidity = pki.OCSPRevoked, 1, &far
+	case "ocsp-unknown":
+		s.Status = pki.OCSPUnknown
+	}
+	return netsim.Reply{Body: pki.BuildOCSP(&pki.OCSPResp{Issuer: t.chain.Certs[1], SignKey: t.chain.Keys[1], Singles: []pki.OCSPSingle{s}}), Class: t.Behaviour}
 }
